@@ -175,3 +175,24 @@ Definition addr_spec : re :=
 Definition delim_cls : cls := [(0, 47); (59, 64); (91, 94); (96, 96); (123, 255)].
 Definition delim_spec : re := Cls delim_cls.
 Definition is_delim (c : N) : bool := in_cls c delim_cls.
+
+(* ------------------------------------------------------------------ classes of addr_spec used by the coverage proof *)
+
+Definition v4forms : re := Alt V4 (Seq V4 port_spec).             (* d.d.d.d  and  d.d.d.d:port *)
+Definition ip6_nodot : re :=                                       (* bare IPv6 without a dotted tail *)
+  alts ([Seq (times Hc 7) H] ++ map compressed_at (seq 0 8)).
+Definition bare_v4tail : re :=                                     (* bare IPv6 with a dotted tail *)
+  alts ([Seq (times Hc 6) V4] ++ map compressed_v4_at (seq 0 6)).
+Definition bracketed : re :=
+  Alt (Seq (chr 91) (Seq ip6_spec (chr 93))) (Seq (chr 91) (Seq ip6_spec (Seq (chr 93) port_spec))).
+Definition rest_spec : re := alts [v4forms; ip6_nodot; bracketed].  (* addr_spec = rest_spec + bare_v4tail *)
+Definition nonv4_spec : re := Alt ip6_spec bracketed.               (* addr_spec = v4forms + nonv4_spec *)
+
+Definition ws_cls : cls := [(9, 10); (12, 13); (32, 32)].           (* Go's \s *)
+Definition ws_spec : re := Cls ws_cls.
+Definition is_ws (c : N) : bool := in_cls c ws_cls.
+(* what may follow the address inside a match: one delimiter byte, or ':' and a whitespace byte *)
+Definition right_spec : re := Alt delim_spec (Seq colon ws_spec).
+Definition delim_nodot_cls : cls := [(0, 45); (47, 47); (59, 64); (91, 94); (96, 96); (123, 255)].
+Definition dot_cls : cls := [(46, 46)].
+Definition nondigit_cls : cls := [(0, 47); (58, 255)].
